@@ -22,6 +22,12 @@ Definition lines_iter_nth (p : profile) (h : hkind) (m : mem) (b blen : N) (item
                                                   | x => sRes (fun _ => "") x
                                                   end)) (nth_ks (len items))
    ++ [line "tags_count" (sRes (fun _ => sN (len items)) e);
+       (* the provided last(): the last item of a complete walk, the walk's panic otherwise; and on an exhausted iterator *)
+       line "tags_last" (sRes (fun _ => match List.last (map Some items) None with
+                                        | Some t => sDref h t
+                                        | None => "none"
+                                        end) e);
+       line "tags_last_exhausted" (sRes (fun _ => "none") e);
        (* next() once, then clone().count(): the clone continues behind the first tag *)
        line "tags_clone" (match items with
                           | [] => sRes (fun _ => "first=false rest=0") e
